@@ -1058,3 +1058,139 @@ def m_try_for_each(c):
         c.I.finish_closure(s2, nf)
         c.I.write_place(s2, c.frame, c.term["dest"], rv)
         c.results.append(s2)
+
+
+# ---------------------------------------------------------------------------- further Option / Result / bool combinators
+@model("std::option::Option::ok_or_else")
+def m_ok_or_else(c):
+    e, loc, _ = enum_arg(c)
+    clo, _ = c.arg(1)
+    if e is None:
+        c.ret_top()
+        return
+    for idx, pay, s in split_enum(c, e, loc):
+        if idx == 1:
+            wrap_payload(c, s, res_ok, 0, pay[0], payload_loc(loc, 1))
+        else:
+            closure_then_wrap(c, s, clo, [], res_err, 1)
+
+
+@model("std::option::Option::map_or_else", "std::result::Result::map_or_else")
+def m_map_or_else(c):
+    e, loc, _ = enum_arg(c)
+    dflt, _ = c.arg(1)
+    clo, _ = c.arg(2)
+    is_opt = "Option" in c.name
+    good = 1 if is_opt else 0
+    if e is None:
+        c.ret_top()
+        return
+    for idx, pay, s in split_enum(c, e, loc):
+        if idx == good:
+            run_closure_ret(c, s, clo, [(pay[0], payload_loc(loc, good))])
+        else:
+            run_closure_ret(c, s, dflt, [] if is_opt else [(pay[0], payload_loc(loc, idx))])
+
+
+@model("std::result::Result::ok", "std::result::Result::err")
+def m_result_ok(c):
+    e, loc, _ = enum_arg(c)
+    if e is None:
+        c.ret_top()
+        return
+    want = 0 if c.name.endswith("::ok") else 1
+    for idx, pay, s in split_enum(c, e, loc):
+        if idx == want:
+            wrap_payload(c, s, opt_some, 1, pay[0], payload_loc(loc, idx))
+        else:
+            c.ret(opt_none(), st=s)
+
+
+@model("std::option::Option::or")
+def m_opt_or(c):
+    e, loc, _ = enum_arg(c)
+    if e is None:
+        c.ret_top()
+        return
+    for idx, pay, s in split_enum(c, e, loc):
+        if idx == 1:
+            wrap_payload(c, s, opt_some, 1, pay[0], payload_loc(loc, 1))
+        else:
+            v, vl = c.arg(1, s)
+            c.ret(v, src_loc=vl, st=s)
+
+
+@model("std::option::Option::is_some_and", "std::result::Result::is_ok_and", "std::result::Result::is_err_and", "std::option::Option::is_none_or")
+def m_is_some_and(c):
+    e, loc, _ = enum_arg(c)
+    clo, _ = c.arg(1)
+    if e is None:
+        c.ret(Int.boolean())
+        return
+    last = c.name.split("::")[-1]
+    if "Option" in c.name:
+        subject = 1
+    else:
+        subject = 1 if last == "is_err_and" else 0
+    other = 1 if last == "is_none_or" else 0
+    for idx, pay, s in split_enum(c, e, loc):
+        if idx == subject:
+            run_closure_ret(c, s, clo, [(pay[0], payload_loc(loc, idx))])
+        else:
+            c.ret(Int.const(other, 1, False), st=s)
+
+
+@model("core::bool::<impl bool>::then", "core::bool::<impl bool>::then_some", "std::primitive::bool::then", "std::primitive::bool::then_some", "bool::then", "bool::then_some")
+def m_bool_then(c):
+    b, bl = c.arg(0)
+    lazy = c.name.endswith("::then")
+    arg, al = c.arg(1)
+    outs = []
+    if isinstance(b, Int) and b.is_const():
+        outs = [(b.lo, c.st)]
+    else:
+        s0 = c.fork()
+        outs = [(0, s0), (1, c.st)]
+    for val, s in outs:
+        try:
+            if bl is not None and not (isinstance(b, Int) and b.is_const()):
+                c.I.assume_var(s, bl, val, True)
+            if val == 0:
+                c.ret(opt_none(), st=s)
+            elif lazy:
+                closure_then_wrap(c, s, arg, [], opt_some, 1)
+            else:
+                v, vl = c.arg(1, s)
+                wrap_payload(c, s, opt_some, 1, v, vl)
+        except Infeasible:
+            pass
+
+
+@model("std::option::Option::filter")
+def m_opt_filter(c):
+    e, loc, _ = enum_arg(c)
+    clo, _ = c.arg(1)
+    if e is None:
+        c.ret_top()
+        return
+    for idx, pay, s in split_enum(c, e, loc):
+        if idx != 1:
+            c.ret(opt_none(), st=s)
+            continue
+        cell = new_tmp(c, s, pay[0], "filterelem")
+        r = c.I.call_closure(c, clo, [(Ref(cell, ()), None)], st=s)
+        if r is None:
+            c.ret_top(st=s)
+            continue
+        for (s2, rv, rloc, nf) in r:
+            c.I.finish_closure(s2, nf)
+            keep = isinstance(rv, Int) and rv.is_const() and rv.lo == 1
+            drop = isinstance(rv, Int) and rv.is_const() and rv.lo == 0
+            if not drop:
+                s3 = s2 if keep else s2.copy()
+                cur = s3.cells.get(cell, pay[0])
+                c.I.write_place(s3, c.frame, c.term["dest"], opt_some(cur))
+                c.results.append(s3)
+            if not keep:
+                c.I.write_place(s2, c.frame, c.term["dest"], opt_none())
+                c.results.append(s2)
